@@ -230,6 +230,31 @@ def run(tier, seed):
                 if bad:
                     rep.violation(bad, {"class": cname, "program": p, "impl": impl,
                                         "replay": base.snippet(cname, p)})
+    # slices with a step other than 1 / -1 (outside the DSL): refused, or well-typed
+    srng = random.Random(seed + 71)
+    for cname in ("monoidal", "rigid"):
+        cls = ci.Cls(cname)
+        gg = G.G(srng, rigid=(cname == "rigid"))
+        for _ in range(120 if tier == "quick" else 2000):
+            p, _info = gg.diagram(n_boxes=srng.randint(2, 6))
+            try:
+                d = common.with_timeout(10.0, ci.interp, cls, p)
+            except Exception:   # noqa
+                continue
+            n = len(d)
+            key = slice(srng.choice([None, 0, 1, srng.randint(-n, n)]), srng.choice([None, n, srng.randint(-n, n)]),
+                        srng.choice([2, 3, -2, -3, n + 1]))
+            rep.count("stream:strided-slices")
+            try:
+                r = d[key]
+            except Exception:   # noqa: a refusal is fine
+                rep.count("strided-slices:refused")
+                continue
+            bad = rescan(ci, r)
+            if bad:
+                rep.violation("d[%r:%r:%r] returned an ill-typed diagram: %s" % (key.start, key.stop, key.step, bad),
+                              {"class": cname, "program": p, "slice": [key.start, key.stop, key.step],
+                               "replay": base.snippet(cname, p)})
     # oracle-only tour of the classes without a structural model of their own
     import class_tour
 
